@@ -5,11 +5,11 @@ package main
 import (
 	"bytes"
 	"encoding/json"
-	"os/exec"
 	"flag"
 	"fmt"
 	"math/rand"
 	"os"
+	"os/exec"
 	"sort"
 	"strings"
 
